@@ -50,9 +50,9 @@ func lookupCase(name string) caseFn {
 // mixes that the lock tables say are free of deadlocks (c25) / of unordered conflicting accesses (c26)
 func stressMixes(kind string) []string {
 	if kind == "c26" {
-		return []string{"tables routes", "tables readers", "tables clients", "server api", "tables policy-quiet", "server updates"}
+		return []string{"server api", "tables readers", "server teardown", "tables routes", "tables clients", "server updates", "tables policy-quiet"}
 	}
-	return []string{"tables routes", "tables readers", "tables clients", "tables policy-quiet", "tables teardown", "server updates", "server api", "server control"}
+	return []string{"tables routes", "tables readers", "tables clients", "tables policy-quiet", "tables teardown", "server updates", "server api", "server control", "server teardown"}
 }
 
 // ---------------------------------------------------------------- a counting client
@@ -393,6 +393,7 @@ type sinkConn struct {
 	closed chan struct{}
 	once   sync.Once
 	n      atomic.Int64
+	delay  atomic.Int64 // nanoseconds per write: a peer that reads slowly
 }
 
 func newSinkConn() *sinkConn { return &sinkConn{closed: make(chan struct{})} }
@@ -403,7 +404,13 @@ func (a addr) Network() string { return "tcp" }
 func (a addr) String() string  { return string(a) }
 
 func (c *sinkConn) Read(b []byte) (int, error)       { <-c.closed; return 0, net.ErrClosed }
-func (c *sinkConn) Write(b []byte) (int, error)      { c.n.Add(int64(len(b))); return len(b), nil }
+func (c *sinkConn) Write(b []byte) (int, error) {
+	if d := c.delay.Load(); d > 0 {
+		time.Sleep(time.Duration(d))
+	}
+	c.n.Add(int64(len(b)))
+	return len(b), nil
+}
 func (c *sinkConn) Close() error                     { c.once.Do(func() { close(c.closed) }); return nil }
 func (c *sinkConn) LocalAddr() net.Addr              { return addr("192.0.2.1:179") }
 func (c *sinkConn) RemoteAddr() net.Addr             { return addr("192.0.2.2:179") }
@@ -416,7 +423,10 @@ type srvEnv struct {
 	v     *vrf.VRF
 	lr    *locRIB.LocRIB
 	peers []*bnet.IP
+	conns []*sinkConn
 }
+
+func (e *srvEnv) setDelay(k int, d time.Duration) { e.conns[k].delay.Store(int64(d)) }
 
 func peerConfig(v *vrf.VRF, i int, reconnect time.Duration) server.PeerConfig {
 	return server.PeerConfig{
@@ -425,12 +435,25 @@ func peerConfig(v *vrf.VRF, i int, reconnect time.Duration) server.PeerConfig {
 		LocalAS: 65000, PeerAS: uint32(65100 + i), RouterID: 0x0a000001, VRF: v,
 		IPv4: &server.AddressFamilyConfig{
 			ImportFilterChain: filter.NewAcceptAllFilterChain(), ExportFilterChain: filter.NewAcceptAllFilterChain(),
-			AddPathSend: routingtable.ClientOptions{BestOnly: true},
+			AddPathSend: routingtable.ClientOptions{BestOnly: true}, AddPathRecv: addPathRX(i),
+		},
+		IPv6: &server.AddressFamilyConfig{
+			ImportFilterChain: filter.NewAcceptAllFilterChain(), ExportFilterChain: filter.NewAcceptAllFilterChain(),
+			AddPathSend: routingtable.ClientOptions{BestOnly: true}, AddPathRecv: addPathRX(i),
 		},
 	}
 }
 
-func newServer(nPeers int) (*srvEnv, error) {
+// sessions with an odd index have negotiated add-path receive
+func addPathRX(i int) bool { return i%2 == 1 }
+
+func pfx6(i int) *bnet.Prefix {
+	return bnet.NewPfx(bnet.IPv6FromBlocks(0x2001, 0xdb8, uint16(i%nPfx), 0, 0, 0, 0, 0), 48).Dedup()
+}
+
+func newServer(nPeers int) (*srvEnv, error) { return newServerSlow(nPeers, 0) }
+
+func newServerSlow(nPeers int, delay time.Duration) (*srvEnv, error) {
 	id := vrfSeq.Add(1)
 	v, err := vrf.New(fmt.Sprintf("srv-%d", id), 2000+id)
 	if err != nil {
@@ -441,10 +464,13 @@ func newServer(nPeers int) (*srvEnv, error) {
 	e := &srvEnv{b: b, v: v, lr: lr}
 	for i := 0; i < nPeers; i++ {
 		c := peerConfig(v, i, 0)
-		if err := server.VerifC25AddEstablishedPeer(b, c, newSinkConn()); err != nil {
+		con := newSinkConn()
+		con.delay.Store(int64(delay))
+		if err := server.VerifC25AddEstablishedPeer(b, c, con); err != nil {
 			return nil, err
 		}
 		e.peers = append(e.peers, c.PeerAddress)
+		e.conns = append(e.conns, con)
 	}
 	// one message per session: the FSM goroutine takes it only after it has set up its RIBs, so everything
 	// the harness does from here on is ordered after the session initialisation
@@ -456,22 +482,51 @@ func newServer(nPeers int) (*srvEnv, error) {
 	return e, nil
 }
 
+// updateMsg builds an UPDATE as the peer would send it.  kind: 0 classic IPv4 NLRI / withdrawn routes,
+// 1 MP_REACH / MP_UNREACH for IPv4 unicast, 2 MP_REACH / MP_UNREACH for IPv6 unicast.
 func updateMsg(peer int, pfxs []int, withdraw bool, variant int) []byte {
+	return updateMsgKind(peer, pfxs, withdraw, variant, 0)
+}
+
+func updateMsgKind(peer int, pfxs []int, withdraw bool, variant int, kind int) []byte {
 	u := &packet.BGPUpdate{}
 	var nl *packet.NLRI
-	for _, i := range pfxs {
-		nl = &packet.NLRI{Prefix: pfx(i), Next: nl}
+	for j, i := range pfxs {
+		p := pfx(i)
+		if kind == 2 {
+			p = pfx6(i)
+		}
+		nl = &packet.NLRI{Prefix: p, Next: nl, PathIdentifier: uint32(1 + (variant+j)%2)}
 	}
-	if withdraw {
+	asp := types.ASPath{{Type: types.ASSequence, ASNs: []uint32{uint32(65100 + peer), uint32(65200 + variant%3)}}}
+	attrs := func(next *packet.PathAttribute) *packet.PathAttribute {
+		return &packet.PathAttribute{TypeCode: packet.OriginAttr, Value: uint8(0),
+			Next: &packet.PathAttribute{TypeCode: packet.ASPathAttr, Value: &asp, Next: next}}
+	}
+	nh4 := bnet.IPv4FromOctets(127, 0, 1, byte(1+peer)).Dedup()
+	nh6 := bnet.IPv6FromBlocks(0x2001, 0xdb8, 0xffff, 0, 0, 0, 0, uint16(1+peer)).Dedup()
+	switch {
+	case kind == 0 && withdraw:
 		u.WithdrawnRoutes = nl
-	} else {
-		asp := types.ASPath{{Type: types.ASSequence, ASNs: []uint32{uint32(65100 + peer), uint32(65200 + variant%3)}}}
+	case kind == 0:
 		u.NLRI = nl
-		u.PathAttributes = &packet.PathAttribute{TypeCode: packet.OriginAttr, Value: uint8(0),
-			Next: &packet.PathAttribute{TypeCode: packet.ASPathAttr, Value: &asp,
-				Next: &packet.PathAttribute{TypeCode: packet.NextHopAttr, Value: bnet.IPv4FromOctets(127, 0, 1, byte(1+peer)).Dedup()}}}
+		u.PathAttributes = attrs(&packet.PathAttribute{TypeCode: packet.NextHopAttr, Value: nh4})
+	case withdraw:
+		afi := uint16(packet.AFIIPv4)
+		if kind == 2 {
+			afi = packet.AFIIPv6
+		}
+		u.PathAttributes = &packet.PathAttribute{TypeCode: packet.MultiProtocolUnreachNLRIAttr, Optional: true,
+			Value: packet.MultiProtocolUnreachNLRI{AFI: afi, SAFI: packet.SAFIUnicast, NLRI: nl}}
+	default:
+		afi, nh := uint16(packet.AFIIPv4), nh4
+		if kind == 2 {
+			afi, nh = packet.AFIIPv6, nh6
+		}
+		u.PathAttributes = attrs(&packet.PathAttribute{TypeCode: packet.MultiProtocolReachNLRIAttr, Optional: true,
+			Value: packet.MultiProtocolReachNLRI{AFI: afi, SAFI: packet.SAFIUnicast, NextHop: nh, NLRI: nl}})
 	}
-	b, err := u.SerializeUpdate(&packet.EncodeOptions{})
+	b, err := u.SerializeUpdate(&packet.EncodeOptions{UseAddPath: addPathRX(peer)})
 	if err != nil {
 		panic("cannot serialize update: " + err.Error())
 	}
@@ -481,12 +536,16 @@ func updateMsg(peer int, pfxs []int, withdraw bool, variant int) []byte {
 func (e *srvEnv) inject(r *hx.RNG, k int) bool { return e.injectT(r, k, 10*time.Second) }
 
 func (e *srvEnv) injectT(r *hx.RNG, k int, timeout time.Duration) bool {
-	n := 1 + r.Intn(3)
+	n := 1 + r.Intn(4)
+	kind := r.Intn(3)
+	if kind != 0 && n < 2 {
+		n = 2 // several prefixes in one MP_REACH_NLRI: they share the attributes of the UPDATE
+	}
 	var ps []int
 	for i := 0; i < n; i++ {
 		ps = append(ps, r.Intn(nPfx))
 	}
-	return server.VerifC25Inject(e.b, e.v, e.peers[k], updateMsg(k, ps, r.Chance(30), r.Intn(6)), timeout)
+	return server.VerifC25Inject(e.b, e.v, e.peers[k], updateMsgKind(k, ps, r.Chance(30), r.Intn(6), kind), timeout)
 }
 
 func stressServer(a args) string {
@@ -524,10 +583,15 @@ func stressServer(a args) string {
 				}
 			case x < 10:
 				e.b.ReplaceImportFilterChain(e.v, e.peers[k], chainVariant(r.Intn(3)))
-			case x < 13:
+			case x < 12:
 				if rib := safeRIBIn(e, k); rib != nil {
 					readAll(rib.Dump())
 				}
+			case x < 13:
+				if rib := e.b.GetRIBIn(e.v, e.peers[k], packet.AFIIPv6, packet.SAFIUnicast); rib != nil {
+					readAll(rib.Dump())
+				}
+				readAll(e.v.IPv6UnicastRIB().Dump())
 			case x < 15:
 				if rib := e.b.GetRIBOut(e.v, e.peers[k], packet.AFIIPv4, packet.SAFIUnicast); rib != nil {
 					readAll(rib.Dump())
@@ -540,6 +604,38 @@ func stressServer(a args) string {
 				_ = len(e.b.GetPeers())
 			default:
 				_ = e.b.GetPeerConfig(e.v, e.peers[k]) != nil
+			}
+		})
+	case "teardown":
+		// a session goes down (Cease -> uninit -> dispose -> sender teardown) while its update sender is busy flushing to a
+		// peer that reads slowly, then comes up again (new FSM, new RIBs, new sender) and goes down once more; the other
+		// sessions keep receiving UPDATEs; readers dump the Loc-RIB and the RIBs of the sessions that stay up
+		for k := range e.peers {
+			e.setDelay(k, 300*time.Microsecond)
+		}
+		var phase atomic.Int64
+		workers(a, func(r *hx.RNG, w int) {
+			switch x := r.Intn(20); {
+			case x < 13:
+				e.injectT(r, r.Intn(2), 5*time.Second) // sessions 0 and 1 stay up
+			case x < 14 && w == 0:
+				switch phase.Add(1) {
+				case 3, 9:
+					e.b.DisposePeer(e.v, e.peers[2])
+				case 6:
+					c := peerConfig(e.v, 2, 0)
+					con := newSinkConn()
+					con.delay.Store(int64(300 * time.Microsecond))
+					if err := server.VerifC25AddEstablishedPeer(e.b, c, con); err != nil {
+						failed.Add(1)
+					}
+				}
+			case x < 17:
+				readAll(e.lr.Dump())
+			default:
+				if rib := e.b.GetRIBIn(e.v, e.peers[r.Intn(2)], packet.AFIIPv4, packet.SAFIUnicast); rib != nil {
+					readAll(rib.Dump())
+				}
 			}
 		})
 	case "control":
